@@ -101,7 +101,7 @@ def run(rng, tier, model_ok):
         ncoq = len(sub_cases)
         bad = vlib.coq_eval_cases(sub_cases, "C18", shard_size=200)
         for j, got in sorted(bad.items()):
-            mismatches.append({"input": "".join(chr(c) for c in sub_cases[j][1][-40:]), "model": got[:40], "impl": sub_cases[j][2][:40]})
+            mismatches.append({"input": vlib.safe_text(sub_cases[j][1][-40:]), "model": got[:40], "impl": sub_cases[j][2][:40]})
     return {
         "evaluations": 2 * len(qs) + 2 * len(sub) + len(fresh), "distinct_nontrivial": len({q for q, used in queries if used}),
         "rule": "expressions of one to four operands mixing literals and phrases of shipped facts (plus two unknown phrases) with * /, parentheses "
